@@ -223,7 +223,7 @@ def run(prop, seed, budget, ctx):
             reqs.append({"id": len(reqs), "op": "roundtrip", "opts": o, "sopts": so, "ty": t.lean, "d": py_proto(d)})
             meta.append((t, case, why))
     ms = model(reqs) if ctx["driver_ok"] else [None] * len(reqs)
-    kbad = kcmp = 0
+    kbad = kcmp = 0; fallback_n = 0
     for (t, case, why), mo in zip(meta, ms):
         k_ok = None
         if mo is not None and "error" not in mo and "ok" in mo.get("model", {}) and mo.get("ser") is not None:
@@ -237,6 +237,9 @@ def run(prop, seed, budget, ctx):
         case["k_ok"] = k_ok
         if why: case.update(kind="P", why=why); failures.append(case); hist["P:" + why[0].split(":")[0]] += 1
         elif k_ok is False: kbad += 1; case.update(kind="K", why="model and implementation disagree"); failures.append(case)
+    if prop == "C04":
+        ff, fn = run_fallback(rnd, g, budget, hist, distinct)
+        failures += ff; fallback_n = fn
     if prop == "C05":
         from discr import run_discr
         df, dn, dd, dh = run_discr(seed, budget, want=("roundtrip",))
@@ -247,10 +250,87 @@ def run(prop, seed, budget, ctx):
                 "rule": "generated types x values obtained by deserializing valid data x random options; plus discriminated unions (serialize adds the discriminator, the value "
                         "round-trips); non-trivial = non-leaf type; distinct by (type, datum, options)",
                 "samples": samples, "histograms": dict(hist), "correspondence": {"compared_with_model": kcmp, "disagreements": kbad}, "failures": failures}
-    return {"evaluations": len(meta), "distinct_nontrivial": len(distinct),
+    return {"evaluations": len(meta) + fallback_n, "distinct_nontrivial": len(distinct),
             "rule": "generated types x values obtained by deserializing valid data x random exclude_none / exclude_defaults / additional_properties; "
+                    "plus JSON data rebuilt with container classes that have no serialization of their own (OrderedDict, Counter, user Mapping / list / dict subclasses, "
+                    "deque, ...) against the image of the plain data, without a type, as Any and under fall_back_on_any; "
                     "non-trivial = non-leaf type; distinct by (type, datum, options)",
             "samples": samples, "histograms": dict(hist), "correspondence": {"compared_with_model": kcmp, "disagreements": kbad}, "failures": failures}
+
+
+class _UserMapping(collections.abc.Mapping):
+    def __init__(self, d): self._d = dict(d)
+    def __getitem__(self, k): return self._d[k]
+    def __iter__(self): return iter(self._d)
+    def __len__(self): return len(self._d)
+class _DictSub(dict): pass
+class _ListSub(list): pass
+class _UserSeq(collections.abc.Sequence):
+    def __init__(self, l): self._l = list(l)
+    def __getitem__(self, i): return self._l[i]
+    def __len__(self): return len(self._l)
+
+MAP_WRAPS = {"OrderedDict": collections.OrderedDict, "defaultdict": lambda d: collections.defaultdict(list, d), "ChainMap": lambda d: collections.ChainMap(dict(d)),
+             "UserMapping": _UserMapping, "dict-subclass": _DictSub, "mappingproxy": lambda d: __import__("types").MappingProxyType(dict(d)),
+             "UserDict": collections.UserDict, "dict": dict}
+SEQ_WRAPS = {"deque": collections.deque, "list-subclass": _ListSub, "UserList": collections.UserList, "tuple": tuple, "UserSequence": _UserSeq, "list": list}
+
+
+def run_fallback(rnd, g, budget, hist, distinct):
+    """C04 on values whose class has no serialization of its own: a mapping is a mapping and a collection a collection whatever
+    the concrete class - the image of the rebuilt datum is the image of the plain datum (a dict with the same keys in the same
+    order / a list with the same elements), and is made of JSON values only"""
+    import dataclasses
+    from typing import Any
+    from apischema import serialize
+
+    @dataclasses.dataclass
+    class Holder:
+        title: str
+        payload: Any
+
+    def rebuild(d, used):
+        if isinstance(d, dict):
+            w = rnd.choice(sorted(MAP_WRAPS)); used.add(w)
+            return MAP_WRAPS[w]({k: rebuild(v, used) for k, v in d.items()})
+        if isinstance(d, list):
+            w = rnd.choice(sorted(SEQ_WRAPS)); used.add(w)
+            return SEQ_WRAPS[w]([rebuild(v, used) for v in d])
+        return d
+    failures, n = [], 0
+    for _ in range(150 * budget):
+        d = g.json_value(3) if hasattr(g, "json_value") else None
+        if d is None: d = _json_value(rnd, 3)
+        if not isinstance(d, (dict, list)): d = {"k": d} if rnd.random() < 0.5 else [d]
+        used = set(); v = rebuild(d, used); n += 1
+        for w in used: hist["fallback:" + w] += 1
+        try: want = serialize(d)
+        except Exception: hist["fallback:plain-datum-raises"] += 1; continue
+        why, got = [], {}
+        calls = {"serialize(v)": lambda: serialize(v), "serialize(Any, v, fall_back_on_any=True)": lambda: serialize(Any, v, fall_back_on_any=True),
+                 "serialize(type(v), v, fall_back_on_any=True)": lambda: serialize(type(v), v, fall_back_on_any=True),
+                 "serialize(Holder, Holder('t', v), fall_back_on_any=True)['payload']": lambda: serialize(Holder, Holder("t", v), fall_back_on_any=True)["payload"],
+                 "serialize(Holder('t', v))['payload']": lambda: serialize(Holder("t", v))["payload"]}
+        for name, call in calls.items():
+            try:
+                out = call(); got[name] = repr(out)[:200]
+                if not json_only(out): why.append("output-is-not-JSON-only:" + name)
+                elif py_proto(out) != py_proto(want) or (isinstance(out, dict) and list(out) != list(want)): why.append("image-depends-on-the-concrete-container-class:" + name)
+            except Exception as e: why.append("serialize-raises:" + type(e).__name__ + ":" + name)
+        distinct.add(case_hash("fallback", py_proto(d), sorted(used)))
+        if why:
+            failures.append({"kind": "P", "part": "fallback", "features": ["fallback"] + sorted(used), "d": py_proto(d), "d_repr": repr(d), "value": repr(v)[:300],
+                             "expected": repr(want)[:300], "got": got, "why": why, "k_ok": None})
+            hist["P:" + why[0].split(":")[0]] += 1
+    return failures, n
+
+
+def _json_value(rnd, depth):
+    r = rnd.random()
+    if depth <= 0 or r < 0.35:
+        return rnd.choice([None, True, False, 0, 1, -3, 2**40, 1.5, "", "a", "b c"])
+    if r < 0.7: return {rnd.choice(["a", "b", "c", "k1", ""]) : _json_value(rnd, depth - 1) for _ in range(rnd.randint(0, 3))}
+    return [_json_value(rnd, depth - 1) for _ in range(rnd.randint(0, 3))]
 
 
 def has_special_float(j):
@@ -300,6 +380,9 @@ def is_known(kid, case):
 
 def replay(prop, case, ctx):
     from apischema import deserialize, serialize
+    if case.get("part") == "fallback":
+        d = proto_py(case["d"])
+        return {"datum": repr(d), "rebuilt_with": case["features"][1:], "plain_image": repr(serialize(d)), "recorded": case["why"], "recorded_images": case["got"]}
     mod = build_module("\n".join(Pool.HEADER + case["src"]), "serreplay"); tp = eval(case["py"], dict(vars(mod)))
     d = proto_py(case["d"]); so, o = case["sopts"], case["opts"]
     v = deserialize(tp, fresh(d), additional_properties=o["ap"], no_copy=o["nc"])
